@@ -47,6 +47,8 @@ def strs_in(b, blocks=None):
 
 
 def run(ctx):
+    from .c16 import complete_write_rules
+    complete_write_rules(ctx)
     f = ctx.f
     # ---- MAGIC
     hc = f.consts.get(P + 'HEADER_CONST')
